@@ -1,9 +1,13 @@
 """C02 - algebraic feature expressions evaluate to ordinary arithmetic.
 Oracle: vt.exprs.evaluate (own tree evaluator, documented operator semantics)."""
+import copy
+import functools
 import itertools
+import sys
 
 from hypothesis import strategies as st
 
+import tracklib.core.track          # loaded before the class-level state is recorded below
 from tracklib.core.operators import Operator
 from tracklib.util.exceptions import AnalyticalFeatureError
 
@@ -16,10 +20,92 @@ ASSUMPTIONS = [
     "undefined or numerically fragile arithmetic (x/0, 0^-k, negative^fraction, LOG<=0, SQRT<0, SIGN(0), pointwise f(NaN), MEDIAN with NaN, "
     "aggregate of all-NaN, |v|>1e100, cancellation/comparison of inexact nearly-equal operands) is not judged",
     "exact equality is demanded when every operation in the tree is exact on dyadic data, 1e-9 relative otherwise",
+    "external scalar variables (documented form operate('A=A/factor', {'factor': var})): names k, w, factor (disjoint from feature and "
+    "function names) stand where a literal may; values are Python ints / floats from vt.exprs.EXT_VALUES; every evaluation is judged against "
+    "the values passed to THAT call (the same text is evaluated again with other values, on the same and on a fresh track)",
+    "shift operator objects are judged against the definitions documented in class Operator: SHIFT y(t)=x(t-k) (NaN outside), SHIFT_REV "
+    "y(t)=x(t+k), SHIFT_CIRCULAR(_REV) y(t)=x((t-+k)%n), SHIFT_RIGHT/LEFT and their circular forms k=1; k integer in -6..6; the algebraic "
+    "'>>' '<<' forms are not in the stated language and are not judged",
+    "an omitted output name of a void operator means the first input feature (docstring of Track.operate); issued only when that input is a "
+    "real feature (a, b), not a virtual one",
+    "cases of one process share tracklib's class-level state on purpose; a violation is re-run after that state is put back to its "
+    "import-time content: still failing = self-contained witness (plain key), else key + ':after-earlier-cases'",
 ]
 
 T0 = gen.ms_of_fields(2021, 3, 4, 5, 6, 7)
 NAMES = ["a", "b", "x", "y", "z", "t", "idx"]
+
+
+# --- witnesses that do not depend on earlier cases -----------------------------------------------------
+# tracklib may keep state at class / module level (a cache, a flag) that outlives a call.  Cases of one process
+# then influence each other, which is welcome (more histories are explored) but a violation found that way does
+# not replay alone.  So when a body raises a Violation, the containers and scalars held by tracklib's modules and
+# classes are put back to what they were when this module was imported and the SAME case is run again: if it still
+# fails, the case is a self-contained witness (key unchanged); if not, the violation is reported under the key
+# + ':after-earlier-cases' (it is still a violation of a property quantified over histories), and the search goes on
+# for a self-contained witness under the plain key.  Nothing of this runs while the property holds.
+def _holders():
+    for name, mod in sorted(sys.modules.items()):
+        if mod is not None and (name == "tracklib" or name.startswith("tracklib.")):
+            yield mod
+            for v in list(vars(mod).values()):
+                if isinstance(v, type) and str(getattr(v, "__module__", "")).startswith("tracklib"):
+                    yield v
+
+
+def _snapshot_state():
+    snap, seen = [], set()
+    for h in _holders():
+        if id(h) in seen:
+            continue
+        seen.add(id(h))
+        for attr, val in list(vars(h).items()):
+            if attr.startswith("__") and attr.endswith("__"):
+                continue
+            if isinstance(val, (dict, list, set)):
+                snap.append((h, attr, val, copy.copy(val)))
+            elif val is None or isinstance(val, (bool, int, float, str)):
+                snap.append((h, attr, val, None))
+    return snap
+
+
+_PRISTINE = _snapshot_state()
+
+
+def restore_pristine_state():
+    for h, attr, val, content in _PRISTINE:
+        try:
+            if content is None:
+                if vars(h).get(attr, val) is not val:
+                    setattr(h, attr, val)
+                continue
+            if vars(h).get(attr) is not val:
+                setattr(h, attr, val)
+            if isinstance(val, list):
+                val[:] = content
+            else:
+                val.clear()
+                val.update(content)
+        except Exception:
+            pass
+
+
+def self_contained(body):
+    """wrap a body: a Violation is confirmed on pristine class-level state (see above)"""
+    @functools.wraps(body)
+    def wrapped(case):
+        try:
+            return body(case)
+        except Violation as v:
+            restore_pristine_state()
+            try:
+                body(case)
+            except Violation:
+                raise v
+            raise Violation(v.key + ":after-earlier-cases",
+                            "[the case passes on pristine class-level state: the failure needs calls made by earlier cases of this "
+                            "process, i.e. tracklib keeps state between calls] " + v.msg)
+    return wrapped
 
 
 # ----------------------------------------------------------------------------------------------
@@ -32,7 +118,7 @@ def build(case):
     return tr
 
 
-def env_of(case):
+def env_of(case, ext=None):
     n = case["n"]
     env = {"x": [float(p[0]) for p in case["xyz"]], "y": [float(p[1]) for p in case["xyz"]],
            "z": [float(p[2]) for p in case["xyz"]], "t": [(T0 + 1000 * i) / 1000.0 for i in range(n)],
@@ -40,7 +126,23 @@ def env_of(case):
     for name in ("a", "b"):
         if case.get(name) is not None:
             env[name] = [float(v) for v in case[name]]
+    if ext:
+        env.update(ext)         # external scalars: name -> number (names disjoint from the feature names)
     return env
+
+
+def operate_expr(tr, s, ext):
+    """the call a user writes: without a dictionary when there are no externals, with (a copy of) it otherwise"""
+    if ext is None:
+        return tr.operate(s)
+    return tr.operate(s, dict(ext))
+
+
+def ext_rounds(case):
+    """[(externals of the call, fresh track?)]: the first evaluation and the repeated ones of the same text"""
+    more = case.get("ext_more") or []
+    fresh = case.get("fresh") or []
+    return [(case.get("ext"), True)] + [(e, bool(fresh[j]) if j < len(fresh) else True) for j, e in enumerate(more)]
 
 
 def snapshot(tr):
@@ -109,22 +211,41 @@ def classes_of(tree, ref):
     if any(v != v for v in ref.vec):
         cls.append("nan-result")
     cls.append("exact" if ref.exact else "inexact")
+    if f["externals"]:
+        cls.append("ext")
     return cls
 
 
 # --- evaluation without '=' ---------------------------------------------------------------------
+@self_contained
 def body_eval(case):
     tree, s = case["tree"], case["s"]
-    try:
-        ref = exprs.evaluate(tree, env_of(case), case["n"])
-    except exprs.Undef:
+    tr = None
+    judged, info = 0, None
+    last = None
+    for ext, fresh in ext_rounds(case):
+        try:
+            ref = exprs.evaluate(tree, env_of(case, ext), case["n"])
+        except exprs.Undef:
+            continue
+        if tr is None or fresh:
+            tr = build(case)
+        before = snapshot(tr)
+        got = operate_expr(tr, s, ext)
+        check_values(got, ref, s if not ext else "%s with %s" % (s, ext), tree)
+        compare_effects(before, snapshot(tr), s=s)
+        judged += 1
+        if info is None:
+            info = {"nt": exprs.nontrivial(tree), "cls": classes_of(tree, ref)}
+        used = sorted((k, float(v)) for k, v in (ext or {}).items() if k in exprs.features(tree)["externals"])
+        if last is not None and used != last:
+            info["cls"].append("ext-repeat-other-value" + ("-fresh-track" if fresh else "-same-track"))
+        last = used
+    if info is None:
         return {"undef": True}
-    tr = build(case)
-    before = snapshot(tr)
-    got = tr.operate(s)
-    check_values(got, ref, s, tree)
-    compare_effects(before, snapshot(tr), s=s)
-    return {"nt": exprs.nontrivial(tree), "cls": classes_of(tree, ref)}
+    if case.get("ext") is not None and not exprs.features(tree)["externals"]:
+        info["cls"].append("ext-dict-unused")
+    return info
 
 
 def _vec_case(tree, s, n, a, b, xyz):
@@ -134,11 +255,22 @@ def _vec_case(tree, s, n, a, b, xyz):
 @st.composite
 def strat_eval(draw, max_depth=6):
     n = draw(st.integers(1, 5))
-    tree, s = draw(exprs.styled(exprs.trees(NAMES, max_depth)))
+    with_ext = draw(st.integers(0, 2)) == 0
+    tree, s = draw(exprs.styled(exprs.trees(NAMES, max_depth, externals=exprs.EXTERNALS if with_ext else ())))
     a = draw(exprs.vectors(n))
     b = draw(exprs.vectors(n))
     xyz = draw(st.lists(st.tuples(*[st.sampled_from(exprs.VALUES)] * 3).map(list), min_size=n, max_size=n))
-    return _vec_case(tree, s, n, a, b, xyz)
+    c = _vec_case(tree, s, n, a, b, xyz)
+    used = exprs.externals_of(tree)
+    if used or with_ext:
+        # the dictionary of the call: the externals of the text, sometimes one more that the text does not use
+        names = used + [x for x in exprs.EXTERNALS if x not in used][:draw(st.integers(0, 1))]
+        c["ext"] = draw(exprs.ext_values(names))
+        if used:       # the same text again with other values, on the same track or on a fresh one
+            k = draw(st.sampled_from([0, 1, 2, 2]))
+            c["ext_more"] = [draw(exprs.ext_values(names)) for _ in range(k)]
+            c["fresh"] = [draw(st.booleans()) for _ in range(k)]
+    return c
 
 
 # --- exhaustive depth <= 3 ------------------------------------------------------------------------
@@ -182,33 +314,43 @@ def strat_assign(draw):
                                lambda ch: st.tuples(st.sampled_from(["+", "-", "*"]), ch, ch).map(lambda t: ["b", t[0], t[1], t[2]]),
                                max_leaves=3))
         c["tree"], c["s"] = lt, exprs.render(lt)
+        for k in ("ext", "ext_more", "fresh"):
+            c.pop(k, None)
     c["sp"] = draw(st.sampled_from(["", "", " "]))
     return c
 
 
+@self_contained
 def body_assign(case):
     tree, lhs = case["tree"], case["lhs"]
     s = lhs + case.get("sp", "") + "=" + case.get("sp", "") + case["s"]
-    try:
-        ref = exprs.evaluate(tree, env_of(case), case["n"])
-    except exprs.Undef:
-        return {"undef": True}
-    tr = build(case)
-    before = snapshot(tr)
-    tr.operate(s)
-    after = snapshot(tr)
-    coord = lhs if lhs in "xyz" else None
-    feat = None if coord else lhs
-    compare_effects(before, after, changed_feature=feat, changed_coord=coord, s=s)
-    got = after[coord] if coord else after["feat"][lhs]
-    for i, (g, w) in enumerate(zip(got, ref.vec)):
-        ok = same(g, w) if ref.exact else close(g, w, rel=1e-9, abs_=1e-9)
-        if not ok:
-            raise Violation("assign-not-stored", "%r: %s reads %s, expression value is %s" % (s, lhs, got, ref.vec))
-    kind = "coord" if coord else ("overwrite" if lhs in before["names"] else "create")
-    f = exprs.features(tree)
-    rhs = "literal-rhs" if not f["names"] else ("name-rhs" if tree[0] == "n" else "expr-rhs")
-    return {"nt": True, "cls": [kind, rhs]}
+    info = None
+    for j, (ext, _) in enumerate(ext_rounds(case)):       # every round on a fresh track (histories are C01's subject)
+        try:
+            ref = exprs.evaluate(tree, env_of(case, ext), case["n"])
+        except exprs.Undef:
+            continue
+        tr = build(case)
+        before = snapshot(tr)
+        operate_expr(tr, s, ext)
+        after = snapshot(tr)
+        coord = lhs if lhs in "xyz" else None
+        feat = None if coord else lhs
+        compare_effects(before, after, changed_feature=feat, changed_coord=coord, s=s)
+        got = after[coord] if coord else after["feat"][lhs]
+        for i, (g, w) in enumerate(zip(got, ref.vec)):
+            ok = same(g, w) if ref.exact else close(g, w, rel=1e-9, abs_=1e-9)
+            if not ok:
+                raise Violation("assign-not-stored", "%r%s: %s reads %s, expression value is %s" % (
+                    s, " with %s" % (ext,) if ext else "", lhs, got, ref.vec))
+        if info is None:
+            kind = "coord" if coord else ("overwrite" if lhs in before["names"] else "create")
+            f = exprs.features(tree)
+            rhs = "literal-rhs" if not f["names"] else ("name-rhs" if tree[0] == "n" else "expr-rhs")
+            info = {"nt": True, "cls": [kind, rhs] + (["ext"] if f["externals"] else [])}
+        elif "ext-repeat" not in info["cls"]:
+            info["cls"].append("ext-repeat")
+    return info if info is not None else {"undef": True}
 
 
 # --- operator objects give the same values ------------------------------------------------------------
@@ -221,6 +363,18 @@ SCALAR_VOID = {"+": "SCALAR_ADDER", "-": "SCALAR_SUBSTRACTER", "*": "SCALAR_MULT
                ">": "SCALAR_ABOVE", "<": "SCALAR_BELOW"}
 SCALAR_REV = {"-": "SCALAR_REV_SUBSTRACTER", "/": "SCALAR_REV_DIVIDER", "^": "SCALAR_REV_POWER",
               ">": "SCALAR_REV_ABOVE", "<": "SCALAR_REV_BELOW"}
+# shift operators: name -> (circular, sign of the documented index offset: y(t) = x(t - sign*k)); unary ones have k = 1
+SHIFT_SCALAR = {"SHIFT": (False, 1), "SHIFT_REV": (False, -1), "SHIFT_CIRCULAR": (True, 1), "SHIFT_CIRCULAR_REV": (True, -1)}
+SHIFT_UNARY = {"SHIFT_RIGHT": (False, 1), "SHIFT_LEFT": (False, -1), "SHIFT_CIRCULAR_RIGHT": (True, 1), "SHIFT_CIRCULAR_LEFT": (True, -1)}
+
+
+def shift_ref(opname, vec, k=1):
+    """documented result of a shift operator object on the vector vec (k ignored for the unary ones)"""
+    if opname in SHIFT_UNARY:
+        circ, sign = SHIFT_UNARY[opname]
+        return exprs.shift_ref(vec, sign, circ)
+    circ, sign = SHIFT_SCALAR[opname]
+    return exprs.shift_ref(vec, sign * k, circ)
 
 
 @st.composite
@@ -230,7 +384,8 @@ def strat_operator(draw):
     b = draw(exprs.vectors(n))
     xyz = draw(st.lists(st.tuples(*[st.sampled_from(exprs.VALUES)] * 3).map(list), min_size=n, max_size=n))
     src = st.sampled_from(NAMES)
-    kind = draw(st.sampled_from(["uv", "nv", "bv", "sv", "sr"]))
+    kind = draw(st.sampled_from(["uv", "nv", "bv", "sv", "sr", "su", "sh"]))
+    extra = {}
     if kind == "uv":
         tree = ["f", draw(st.sampled_from(sorted(UNARY_VOID))), ["n", draw(src)]]
     elif kind == "nv":
@@ -239,48 +394,95 @@ def strat_operator(draw):
         tree = ["b", draw(st.sampled_from(sorted(BINARY_VOID))), ["n", draw(src)], ["n", draw(src)]]
     elif kind == "sv":
         tree = ["b", draw(st.sampled_from(sorted(SCALAR_VOID))), ["n", draw(src)], ["l", draw(st.sampled_from(exprs.LITERALS))]]
-    else:
+    elif kind == "sr":
         tree = ["b", draw(st.sampled_from(sorted(SCALAR_REV))), ["l", draw(st.sampled_from(exprs.LITERALS))], ["n", draw(src)]]
+    else:
+        # shift operators have no form in the stated expression language: "tree" is only the source leaf
+        tree = ["n", draw(st.sampled_from(["a", "a", "b", "b"] + NAMES))]
+        if kind == "su":
+            extra = {"op": draw(st.sampled_from(sorted(SHIFT_UNARY)))}
+        else:
+            extra = {"op": draw(st.sampled_from(sorted(SHIFT_SCALAR))), "k": draw(st.integers(-6, 6))}
     c = _vec_case(tree, exprs.render(tree), n, a, b, xyz)
+    c.update(extra)
     c["kind"] = kind
-    c["dst"] = draw(st.sampled_from(["out", "a", "b"]))
+    # output: a new name, an existing feature (possibly the input itself), or omitted (= first input, documented)
+    c["dst"] = draw(st.sampled_from(["out", "a", "b", None]))
     return c
 
 
+def first_input(case):
+    tree, kind = case["tree"], case["kind"]
+    if kind in ("su", "sh"):
+        return tree[1]
+    return tree[3][1] if kind == "sr" else tree[2][1]
+
+
+@self_contained
 def body_operator(case):
-    tree, kind, dst = case["tree"], case["kind"], case["dst"]
+    tree, kind = case["tree"], case["kind"]
+    dst = case.get("dst", "out")
+    env = env_of(case)
     try:
-        ref = exprs.evaluate(tree, env_of(case), case["n"])
+        if kind in ("su", "sh"):
+            src = exprs.evaluate(tree, env, case["n"])
+            ref = exprs.Val(shift_ref(case["op"], src.vec, case.get("k", 1)), src.exact)
+            tree = ["f", "SHIFT_CIRCULAR" if (SHIFT_UNARY.get(case["op"]) or SHIFT_SCALAR[case["op"]])[0] else "SHIFT", tree]
+        else:
+            ref = exprs.evaluate(tree, env, case["n"])
     except exprs.Undef:
         return {"undef": True}
+    cls = [kind, "exact" if ref.exact else "inexact"]
+    inp = first_input(case)
+    omitted = False
+    if kind != "nv":
+        if dst is None and inp not in ("a", "b"):
+            dst = "out"              # an omitted output means the first input; not issued for the virtual ones
+        omitted = dst is None
+        eff = inp if omitted else dst
+        cls.append("dst-omitted" if omitted else ("dst-is-input" if eff == inp else ("dst-existing" if eff in ("a", "b") else "dst-new")))
+        if kind in ("su", "sh") and eff == inp:
+            cls.append("shift-in-place")
     tr = build(case)
     before = snapshot(tr)
+    out = [] if omitted else [dst]
     if kind == "uv":
-        tr.operate(getattr(Operator, UNARY_VOID[tree[1]]), tree[2][1], dst)
+        tr.operate(getattr(Operator, UNARY_VOID[tree[1]]), tree[2][1], *out)
     elif kind == "nv":
         r = tr.operate(getattr(Operator, NON_VOID[tree[1]]), tree[2][1])
         check_values([r] * case["n"], ref, "Operator.%s(%s)" % (NON_VOID[tree[1]], tree[2][1]), tree)
         compare_effects(before, snapshot(tr), s="Operator." + NON_VOID[tree[1]])
-        dst = None
     elif kind == "bv":
-        tr.operate(getattr(Operator, BINARY_VOID[tree[1]]), tree[2][1], tree[3][1], dst)
+        tr.operate(getattr(Operator, BINARY_VOID[tree[1]]), tree[2][1], tree[3][1], *out)
     elif kind == "sv":
-        tr.operate(getattr(Operator, SCALAR_VOID[tree[1]]), tree[2][1], tree[3][1], dst)
+        tr.operate(getattr(Operator, SCALAR_VOID[tree[1]]), tree[2][1], tree[3][1], *out)
+    elif kind == "sr":
+        tr.operate(getattr(Operator, SCALAR_REV[tree[1]]), tree[3][1], tree[2][1], *out)
+    elif kind == "su":
+        tr.operate(getattr(Operator, case["op"]), inp, *out)
     else:
-        tr.operate(getattr(Operator, SCALAR_REV[tree[1]]), tree[3][1], tree[2][1], dst)
-    if dst is not None:
+        tr.operate(getattr(Operator, case["op"]), inp, case["k"], *out)
+    if kind != "nv":
+        what = "Operator.%s on %s" % (case["op"] + ("(k=%d)" % case["k"] if kind == "sh" else ""), inp) if kind in ("su", "sh") \
+            else "Operator form of " + case["s"]
+        what += " -> %s" % ("(omitted)" if omitted else dst)
         after = snapshot(tr)
-        compare_effects(before, after, changed_feature=dst, s="Operator on %s -> %s" % (case["s"], dst))
-        check_values(after["feat"][dst], ref, "Operator form of " + case["s"], tree)
-    # the algebraic form of the same one-operator tree on a fresh track
-    tr2 = build(case)
-    check_values(tr2.operate(case["s"]), ref, case["s"], tree)
-    return {"nt": True, "cls": [kind, "exact" if ref.exact else "inexact"]}
+        compare_effects(before, after, changed_feature=eff, s=what)
+        check_values(after["feat"][eff], ref, what, tree)
+    if kind not in ("su", "sh"):
+        # the algebraic form of the same one-operator tree on a fresh track
+        tr2 = build(case)
+        check_values(tr2.operate(case["s"]), ref, case["s"], tree)
+    return {"nt": True, "cls": cls}
 
 
 RULE = ("exhaustive: every tree of depth <= 2 (quick, + every 31st depth-3 tree) / depth <= 3 (thorough) over leaves {a,b,idx,2} and "
         "+ - * / ^ < >, on 3 fixed vector sets; random: Hypothesis recursive trees (depth <= 6, functions, unary minus, styles) on vectors from "
-        "{-2..3, NaN}; assign: the same with '=' and lhs in {new, existing, x, y, z}; operators: one-operator trees through Operator objects. "
+        "{-2..3, NaN}, a third of them with external scalar variables (k, w, factor) as leaves, the call handing their values over in a dictionary "
+        "(sometimes with an unused entry) and the same text evaluated up to 2 more times with other values on the same or a fresh track; "
+        "assign: the same with '=' and lhs in {new, existing, x, y, z} (repeated rounds on fresh tracks); operators: one-operator trees through "
+        "Operator objects, plus the 8 shift operator objects (k in -6..6), with the output a new name, an existing feature, the input itself, "
+        "or omitted (= first input). "
         "Non-trivial: reference fully defined and (>= 2 operators of different precedence, or a same-precedence non-commutative chain, "
         "or a scalar on the left, or a literal-only sub-tree, or a parenthesis that changes the parse); assign/operators: reference defined. "
         "Distinct = hash of the case.")
